@@ -11,3 +11,4 @@ import RdfModel.Proofs.C17V
 import RdfModel.Proofs.C17VRoots
 import RdfModel.Proofs.C17VMain
 import RdfModel.Proofs.C17VDataset
+import RdfModel.Proofs.C17History
